@@ -687,3 +687,129 @@ theorem C08_gr_zero_to_one_destination (G : Gemini) (hG : StdLib.geminiLogical.b
 example : (StdLib.geminiLogical.bind geminiOf).isSome = true := by decide +kernel
 
 end Shuttle.Props.C08
+
+namespace Shuttle.Props.C08
+open Shuttle Shuttle.AOD Shuttle.StdMoves
+
+/-! ## the enumerations of the Gemini theorems are exactly the documented preconditions -/
+
+theorem sublist_mem_subLists {α : Type} : ∀ {l L : List α}, l.Sublist L → l ≠ [] → l ∈ subLists L := by
+  intro l L h
+  induction h with
+  | slnil => intro h; exact absurd rfl h
+  | cons a _ ih =>
+    intro hne
+    exact List.mem_cons_of_mem _ (List.mem_append_right _ (ih hne))
+  | @cons_cons l' L' a h ih =>
+    intro _
+    by_cases he : l' = []
+    · subst he; exact List.mem_cons_self
+    · exact List.mem_cons_of_mem _ (List.mem_append_left _ (List.mem_map_of_mem (ih he)))
+
+theorem sortedStrict_tail {a : Int} {t : List Int} (h : sortedStrict (a :: t) = true) :
+    sortedStrict t = true ∧ ∀ r ∈ t, a < r := by
+  induction t generalizing a with
+  | nil => simp [sortedStrict]
+  | cons b u ih =>
+    simp only [sortedStrict, Bool.and_eq_true, decide_eq_true_eq] at h
+    obtain ⟨hab, hs⟩ := h
+    refine ⟨hs, ?_⟩
+    intro r hr
+    rcases List.mem_cons.1 hr with rfl | hr
+    · exact hab
+    · exact Int.lt_trans hab ((ih hs).2 r hr)
+
+theorem intRange_succ (a b : Int) (h : a < b) : intRange a b = a :: intRange (a + 1) b := by
+  unfold intRange
+  have : (b - a).toNat = (b - (a + 1)).toNat + 1 := by omega
+  rw [this, List.range_succ_eq_map]
+  simp only [List.map_cons, List.map_map]
+  congr 1
+  · simp
+  · apply List.map_congr_left
+    intro i _
+    simp only [Function.comp_apply]
+    push_cast
+    omega
+
+theorem sorted_sublist_intRange : ∀ (m : Nat) (a b : Int) (rows : List Int), (b - a).toNat = m →
+    sortedStrict rows = true → (∀ r ∈ rows, a ≤ r ∧ r < b) → rows.Sublist (intRange a b) := by
+  intro m
+  induction m with
+  | zero =>
+    intro a b rows hm _ hr
+    cases rows with
+    | nil => exact List.nil_sublist _
+    | cons r t => have := hr r (by simp); omega
+  | succ m ih =>
+    intro a b rows hm hs hr
+    cases rows with
+    | nil => exact List.nil_sublist _
+    | cons r t =>
+      have hab : a < b := by omega
+      rw [intRange_succ a b hab]
+      have hra := hr r (by simp)
+      obtain ⟨hst, hgt⟩ := sortedStrict_tail hs
+      by_cases e : r = a
+      · subst e
+        apply List.Sublist.cons_cons
+        exact ih (r + 1) b t (by omega) hst (by
+          intro x hx
+          have := hgt x hx
+          have := hr x (by simp [hx])
+          omega)
+      · apply List.Sublist.cons
+        exact ih (a + 1) b (r :: t) (by omega) hs (by
+          intro x hx
+          rcases List.mem_cons.1 hx with rfl | hx'
+          · omega
+          · have := hgt x hx'
+            have := hr x hx
+            omega)
+
+/-- the enumeration used in the Gemini theorems is exactly "non-empty, strictly ascending, inside the block" -/
+theorem mem_subLists_intRange (n : Int) (rows : List Int) (hne : rows ≠ []) (hs : sortedStrict rows = true)
+    (hr : ∀ r ∈ rows, 0 ≤ r ∧ r < n) : rows ∈ subLists (intRange 0 n) :=
+  sublist_mem_subLists (sorted_sublist_intRange _ 0 n rows rfl hs hr) hne
+
+
+/-- `vertical_shift`'s documented preconditions, as predicates, put an input in the enumerated domain -/
+theorem mem_vshiftInputs (G : Gemini) (off col : Int) (rows : List Int)
+    (hoff : 0 ≤ off ∧ off < G.rows) (hcol : col = 0 ∨ col = 1) (hne : rows ≠ []) (hs : sortedStrict rows = true)
+    (hr : ∀ r ∈ rows, 0 ≤ r ∧ r + off < G.rows) : (off, col, rows) ∈ vshiftInputs G := by
+  unfold vshiftInputs
+  simp only [List.mem_flatMap, List.mem_map, Prod.mk.injEq]
+  refine ⟨off, ?_, col, ?_, rows, ?_, rfl, rfl, rfl⟩
+  · unfold intRange
+    simp only [List.mem_map, List.mem_range]
+    exact ⟨off.toNat, by omega, by omega⟩
+  · rcases hcol with rfl | rfl <;> simp
+  · exact mem_subLists_intRange (G.rows - off) rows hne hs (by intro r h; have := hr r h; omega)
+
+/-- `vertical_shift` under its documented preconditions stated as predicates (offset ≥ 0, a logical column, rows strictly
+ascending and staying inside the block) -/
+theorem C08_vertical_shift_documented (G : Gemini) (hG : StdLib.geminiLogical.bind geminiOf = some G)
+    (sites occ : List Site) (off col : Int) (rows : List Int)
+    (hoff : 0 ≤ off ∧ off < G.rows) (hcol : col = 0 ∨ col = 1) (hne : rows ≠ []) (hs : sortedStrict rows = true)
+    (hr : ∀ r ∈ rows, 0 ≤ r ∧ r + off < G.rows)
+    (hocc : ∀ p ∈ blockSites G G.GL col rows, p ∈ occ)
+    (hsite : ∀ p ∈ blockSites G G.GR col (rows.map (· + off)), p ∈ sites)
+    (hvac : ∀ p ∈ blockSites G G.GR col (rows.map (· + off)), p ∉ (blockSites G G.GL col rows).foldl List.erase occ) :
+    ∃ ps, verticalShift G off col rows = some ps ∧
+      playAll sites (State.init occ) ps =
+        .ok ⟨(blockSites G G.GL col rows).foldl List.erase occ ++ blockSites G G.GR col (rows.map (· + off)), [], [], []⟩ :=
+  C08_vertical_shift_destination G hG sites occ off col rows (mem_vshiftInputs G off col rows hoff hcol hne hs hr) hocc hsite hvac
+
+/-- `gr_zero_to_one` for every non-empty strictly ascending list of rows inside the block -/
+theorem C08_gr_zero_to_one_documented (G : Gemini) (hG : StdLib.geminiLogical.bind geminiOf = some G)
+    (sites occ : List Site) (rows : List Int) (hne : rows ≠ []) (hs : sortedStrict rows = true)
+    (hr : ∀ r ∈ rows, 0 ≤ r ∧ r < G.rows)
+    (hocc : ∀ p ∈ blockSites G G.GR 0 rows, p ∈ occ)
+    (hsite : ∀ p ∈ blockSites G G.GR 1 rows, p ∈ sites)
+    (hvac : ∀ p ∈ blockSites G G.GR 1 rows, p ∉ (blockSites G G.GR 0 rows).foldl List.erase occ) :
+    ∃ ps, grZeroToOne G rows = some ps ∧
+      playAll sites (State.init occ) ps =
+        .ok ⟨(blockSites G G.GR 0 rows).foldl List.erase occ ++ blockSites G G.GR 1 rows, [], [], []⟩ :=
+  C08_gr_zero_to_one_destination G hG sites occ rows (mem_subLists_intRange G.rows rows hne hs hr) hocc hsite hvac
+
+end Shuttle.Props.C08
